@@ -1,7 +1,10 @@
 ---------------------------- MODULE CompoundTrace ----------------------------
 (* Trace validation for C15.  One execution = one composition of NP instances of a generated PTG program run with
-   different globals:
+   different globals, or of NP map-operator taskpools (harness/compound/compound_run.c):
      {"e":"Prog","prog":{...},"pools":[[N,M,K],...]}     the program and the globals of each member
+     {"e":"Layout","sizes":[[mt,nt],...]}                 member i applies an operator on mt x nt local tiles: its
+                                                          instances are <<0, <<m, n>>>>, m < mt, n < nt; [0,0] = a member
+                                                          with nothing to do on this process
      {"e":"Run"}
      {"e":"Start","sp":i,"c":C,"p":[..],...} / {"e":"End","sp":i,"c":C,"p":[..],...}    bodies of member i (from 0)
      {"e":"TpDone","n":k}         k-th call of the completion callback of the object returned by parsec_compose
@@ -27,6 +30,11 @@ TProg == /\ IsEv("Prog") /\ phase = "reset"
             ELSE /\ prog' = Ev.prog /\ pools' = Ev.pools
                  /\ spaces' = [i \in 1..Len(Ev.pools) |-> Space(Member(Ev.prog, Ev.pools[i]))]
          /\ phase' = "prog" /\ UNCHANGED <<st, cdone>>
+TLayout == /\ IsEv("Layout") /\ phase = "reset"
+           /\ prog' = NoProg /\ pools' = Ev.sizes
+           /\ spaces' = [i \in 1..Len(Ev.sizes) |->
+                           {<<0, <<m, n>>>> : m \in 0..(Ev.sizes[i][1] - 1), n \in 0..(Ev.sizes[i][2] - 1)}]
+           /\ phase' = "prog" /\ UNCHANGED <<st, cdone>>
 TRun == /\ IsEv("Run") /\ phase = "prog"
         /\ st' = [i \in 1..Len(pools) |-> [t \in spaces[i] |-> "idle"]]
         /\ cdone' = 0 /\ phase' = "run" /\ UNCHANGED <<prog, pools, spaces>>
@@ -48,7 +56,7 @@ TTpDone == /\ IsEv("TpDone") /\ phase = "run"
 TFinal == /\ IsEv("Final") /\ phase = "run"
           /\ cdone = 1
           /\ phase' = "final" /\ UNCHANGED <<prog, pools, spaces, st, cdone>>
-TNext == TReset \/ TProg \/ TRun \/ TStart \/ TEnd \/ TTpDone \/ TFinal
+TNext == TReset \/ TProg \/ TLayout \/ TRun \/ TStart \/ TEnd \/ TTpDone \/ TFinal
 TSpec == TInit /\ [][TNext]_vars
 AcceptExit == (l > Len(TraceLog)) => (PrintT("VERIF-ACCEPTED") /\ TLCSet("exit", TRUE))
 =============================================================================
